@@ -82,7 +82,7 @@ def P(pid):
         ]
         meta['explanation'] = ('Necessary conditions of proof soundness: challenge ingredients must-flow, the challenge equality and the pairing '
                                'check gate every accept path and depend on every proof field and every public input, identity points are refused '
-                               'on every constructor path. Knowledge soundness of the sigma protocol itself is not decided.')
+                               'on every constructor path, and the disclosed messages stay paired with their indexes (no list of a pair is re-ordered without the other). Knowledge soundness of the sigma protocol itself is not decided.')
     elif pid == 'C06':
         R = [
             ('RF-B committed index translation and signer generator count use L + 1', rf_codec.rule_index_translation, 4),
@@ -253,7 +253,7 @@ def P(pid):
         ]
         meta['explanation'] = ('CL03 is analysed in the all-features configuration the baseline never builds. Decided (necessary): verify / verify_multiattr accept only through '
                                'the equation comparison (depending on v, e, s, bases, attributes, b, c, N), the lower bound on e and a comparison of every attribute with 2^lm '
-                               '(excludes the (v*a^k, m+k*e) forgeries); (complete, given next_prime) sign / sign_multiattr / blind_sign leave the generate-and-test loop only with '
+                               '(excludes the (v*a^k, m+k*e) forgeries) and comparisons that pin the representative of v (v + k*N is refused); (complete, given next_prime) sign / sign_multiattr / blind_sign leave the generate-and-test loop only with '
                                '2^(le-1) < e < 2^le and gcd(e, phi) = 1, e = random_prime(le). The modular algebra is not decided.')
     elif pid == 'C14':
         R = [
@@ -275,7 +275,7 @@ def P(pid):
         meta['explanation'] = ('Decided (necessary): every use of the secret key in blind_sign is dominated by verify_proof == true on the very C, C_trusted, pk, bases, key and positions '
                                'that are signed; verify_proof is gated by the multi-secret PoK, the per-attribute PoKs / range proofs and the PoK / range proof of r; each per-attribute commitment '
                                'is built over the base its proof uses (the defect that broke hidden positions other than 0); every carried commitment is equated with the value it must be about; '
-                               'every serialised leaf of the ZKPoK influences a comparison the verdict depends on (the commitment randomness leaves do not: known finding). Unblinding algebra is not decided.')
+                               'every serialised leaf of the ZKPoK influences a comparison the verdict depends on (the commitment randomness leaves do not: known finding), and every transmitted integer is seen by some comparison as itself, not only reduced modulo n. Unblinding algebra is not decided.')
     elif pid == 'C15':
         R = [
             ('RF-B bases are selected by attribute position', CL.rule_bases_by_attribute_position, 6),
@@ -294,7 +294,7 @@ def P(pid):
         ]
         meta['explanation'] = ('Decided (necessary): the recomputed challenge equality gates acceptance and depends on all nine responses, the four commitment values, both keys, the bases, the revealed '
                                'attributes and the attribute count; Ce is equated with the range proof on e and each per-attribute commitment with its range proof; every serialised leaf of the proof '
-                               'influences a comparison (the commitment randomness leaves do not: known finding). Completeness algebra and soundness of the nine-response protocol are not decided.')
+                               'influences a comparison (the commitment randomness leaves do not: known finding) and every transmitted integer - in particular the commitments Cx, Cv, Cw, Ce - is pinned to its canonical representative. Completeness algebra and soundness of the nine-response protocol are not decided.')
     elif pid == 'C16':
         R = [
             ('RF-Y refusals of local helpers are never discarded (CL03)', lambda c: rf_errors.rule_errors_not_discarded(c, scope=rf_errors.SCOPE_CL03, min_sources=0), 1),
@@ -308,7 +308,7 @@ def P(pid):
         ]
         meta['explanation'] = ('Decided (necessary): acceptance of a Boudot range proof is gated by E\' == E^(2^T), the two decomposition equalities, both proofs of square and both larger-interval '
                                'proofs, each depending on the commitment, bases, modulus and bounds; the commitment carried by each proof of square is equated with E_a_1 / E_b_1 (the transplant defect); '
-                               'the four Fiat-Shamir hashes contain what they must. Completeness for in-range values and the soundness bounds are not decided.')
+                               'the four Fiat-Shamir hashes contain what they must; each of the 27 integers of a proof is seen by some comparison as itself and not only modulo n (E + n, F + n, shifted E_a_1 / E pairs are refused). Completeness for in-range values and the soundness bounds are not decided.')
     elif pid == 'C17':
         R = [
             ('RF-I no opening in the serialised proof types', CL.rule_no_opening_serialised, 4),
